@@ -623,7 +623,7 @@ COAL_KINDS = ("constant", "constant_int", "exponential", "skyride", "skygrid", "
 COAL_TREES = ("fake", "time", "ratio", "ratio_tp")
 
 
-def gen_coal(rng, kind, treekind, theta_tp=False, n=None, special=None):
+def gen_coal(rng, kind, treekind, theta_tp=False, n=None, special=None, grid_leaf=False):
     """special: None | "equal_theta" (all thetas equal, held) | "beyond_root" (last grid points beyond the root)
     | "growth0" (growth exactly 0, held)"""
     n = n or rng.randint(4, 7)
@@ -672,8 +672,15 @@ def gen_coal(rng, kind, treekind, theta_tp=False, n=None, special=None):
             x["logtheta"], b["logtheta"] = [math.log(v) for v in th], [None, None]
         else:
             x["theta"], b["theta"] = th, [0.0, None]
+    if grid_leaf and "grid" in spec:
+        x["grid"], b["grid"] = list(spec["grid"]), [0.0, None]  # the grid points are a Parameter: differentiated
+    if treekind == "fake" and kind not in ("pwlinear", "skygrid_soft"):
+        # sampling times of a FakeTreeModel are entries of its Parameter: the untied, positive ones are differentiated
+        # (pwlinear / soft skygrid pass them through torch.unique under no_grad by design: recorded, not tested)
+        allv = list(x["nh"]) + list(spec.get("grid", []))
+        spec["coords"]["nh"] = [i for i in range(n) if x["nh"][i] > 0 and allv.count(x["nh"][i]) == 1] + spec["coords"]["nh"]
     spec["x"], spec["bounds"] = x, b
-    spec["name"] = "coal/%s/%s%s" % (kind, treekind, "/theta=exp(.)" if theta_tp else "")
+    spec["name"] = "coal/%s/%s%s%s" % (kind, treekind, "/theta=exp(.)" if theta_tp else "", "/grid-leaf" if "grid" in x else "")
     if special == "equal_theta+beyond_root" and k > 1:
         nm = "logtheta" if theta_tp else "theta"
         x[nm] = [x[nm][0]] * len(x[nm])
@@ -710,7 +717,9 @@ def _coal_json(spec, vals, grad, id_="coal"):
         js["theta"] = P("theta", vals["theta"], grad)
     if "growth" in vals:
         js["growth"] = P("growth", vals["growth"], grad)
-    if "grid" in spec:
+    if "grid" in vals:
+        js["grid"] = P("grid", vals["grid"], grad)
+    elif "grid" in spec:
         js["grid"] = [float(g) for g in spec["grid"]]
     if "temperature" in spec:
         js["temperature"] = spec["temperature"]
@@ -725,7 +734,7 @@ def make_coal(spec):
         dic = {}
         t = spec["tree"]
         js = _coal_json(spec, vals, grad)
-        grid = list(spec.get("grid", []))
+        grid = list(vals["grid"]) if "grid" in vals and not isinstance(vals["grid"][0], (list, tuple)) else list(spec.get("grid", []))
         if t["kind"] == "fake":
             n = t["n"]
             nh = vals["nh"]
@@ -750,7 +759,7 @@ def make_coal(spec):
                 if k not in params:
                     params[k] = _param(k, vals[k], grad)
             kind = spec["kind"]
-            gp = _param(None, grid, False) if grid else None
+            gp = (params["grid"] if "grid" in params else _param(None, grid, False)) if grid else None
             if kind == "constant":
                 m = CO.ConstantCoalescentModel("coal", params["theta"], tm)
             elif kind == "exponential":
@@ -780,7 +789,7 @@ def make_coal(spec):
 
 # ----------------------------------------------------------------------------- birth-death
 def gen_bdsk(rng, treekind, m=None, rho=False, survival=True, root_edge=False, explicit_times=False, n=None,
-             r=None):
+             r=None, times_leaf=None):
     """`rho`: False (absent) | True (interior leaf) | 0.0 / 1.0 (held at the special value);
     `r` (removal probability): None (absent) | True (interior leaf) | 0.0 / 1.0 (held at the special value)"""
     n = n or rng.randint(4, 6)
@@ -814,7 +823,17 @@ def gen_bdsk(rng, treekind, m=None, rho=False, survival=True, root_edge=False, e
         x["r"], b["r"] = [float(r)] * m, [0.0, 1.0]
         hold_fixed(spec, "r")
         special += "/r=%g" % r
-    if explicit_times and m > 1:
+    if times_leaf and m > 1:
+        # the rate-shift times are a PARAMETER (differentiated, entry 0 is the origin itself and stays 0):
+        # "abs" absolute times, "rel" fractions of the origin (relative_times=True)
+        o = x["origin"][0] + (root if root_edge else 0.0)
+        fr = [(i + rng.uniform(0.25, 0.75)) / m for i in range(m - 1)]
+        x["times"] = [0.0] + ([f for f in fr] if times_leaf == "rel" else [o * f for f in fr])
+        b["times"] = [0.0, None]
+        spec.setdefault("coords", {})["times"] = list(range(1, m))
+        spec["relative_times"] = times_leaf == "rel"
+        special += "/times=%s-leaf" % times_leaf
+    elif explicit_times and m > 1:
         o = x["origin"][0] + (root if root_edge else 0.0)
         spec["times"] = [0.0] + [o * (i + rng.uniform(0.2, 0.8)) / m for i in range(m - 1)]
     spec["x"], spec["bounds"] = x, b
@@ -907,7 +926,10 @@ def make_bdsk(spec):
             js["rho"] = P("rho", vals["rho"], grad)
         if "r" in vals:
             js["removal_probability"] = P("r", vals["r"], grad)
-        if "times" in spec:
+        if "times" in vals:
+            js["times"] = P("times", vals["times"], grad)
+            js["relative_times"] = bool(spec.get("relative_times"))
+        elif "times" in spec:
             js["times"] = {"id": "times", "type": "Parameter", "tensor": spec["times"], "dtype": PDT["name"]}
         mdl = process_object(js, dic)
         m = spec["m"]
@@ -917,7 +939,10 @@ def make_bdsk(spec):
             o = dic["origin"].tensor.detach().reshape(-1)[0]
             if spec["root_edge"]:
                 o = o + nh[-1]
-            if "times" in spec:
+            if "times" in dic and "times" in spec["x"]:
+                tt_ = dic["times"].tensor.detach().reshape(-1)[1:]
+                cuts = [o * (1.0 - f) for f in tt_] if spec.get("relative_times") else [o - f for f in tt_]
+            elif "times" in spec:
                 cuts = [o - tt for tt in spec["times"][1:]]
             else:
                 cuts = [o * (1.0 - k / m) for k in range(1, m)]
@@ -1278,6 +1303,105 @@ def make_dist(spec):
     return Scen(spec, make)
 
 
+ARG_KINDS = ("number", "tensor0d", "tensor1", "param", "transformed", "view")
+MIX_DISTS = ("normal", "lognormal", "gamma", "laplace", "cauchy", "beta", "tt_normal_precision",
+             "tt_lognormal_mean_scale", "tt_lognormal_mean_stdev", "tt_inverse_gamma")
+
+
+def gen_distmix(rng, dname, kinds=None, xkind=None):
+    """a wrapped distribution whose arguments come in a MIX of kinds: python number / 0-d tensor / 1-element tensor
+    (keyword arguments of `Distribution`), Parameter / TransformedParameter / ViewParameter (its `parameters`);
+    the random variable as Parameter, TransformedParameter, ViewParameter or a list (CatParameter).
+    Every tensor-like argument is a differentiated leaf."""
+    cls, params, xk = DISTS[dname]
+    kinds = dict(kinds or {})
+    for pn in params:
+        kinds.setdefault(pn, rng.choice(ARG_KINDS))
+    xkind = xkind or rng.choice(["param", "transformed", "view", "cat"])
+    k = rng.randint(2, 4)
+    x, b, consts = {}, {}, {}
+    xv, xb = _draw(rng, xk, k)
+    if xkind == "transformed" and xk == "pos":
+        x["x"], b["x"] = [math.log(v) for v in xv], [None, None]
+    elif xkind == "view":
+        x["x"], b["x"] = xv + _draw(rng, xk, 2)[0], xb
+    else:
+        x["x"], b["x"] = xv, xb
+        if xkind == "transformed":
+            xkind = "param" if xk != "pos" else xkind
+    for pn, pk in params.items():
+        v, bb = _draw(rng, pk, 1)
+        kd = kinds[pn]
+        if kd == "number":
+            consts[pn] = v[0]
+        elif kd == "transformed" and pk == "pos":
+            x["p_" + pn], b["p_" + pn] = [math.log(v[0])], [None, None]
+        elif kd == "view":
+            x["p_" + pn], b["p_" + pn] = v + _draw(rng, pk, 1)[0], bb
+        else:
+            if kd == "transformed":
+                kinds[pn] = "param"
+            x["p_" + pn], b["p_" + pn] = v, bb
+    return {"family": "distmix", "dist": dname, "kinds": kinds, "xkind": xkind, "k": k, "consts": consts, "x": x,
+            "bounds": b, "name": "distribution-args/%s/x=%s/%s" % (dname, xkind, ",".join(
+                "%s=%s" % (pn, kinds[pn]) for pn in params))}
+
+
+def make_distmix(spec):
+    _imports()
+    from torchtree.core.parameter import TransformedParameter, ViewParameter
+    from torchtree.core.utils import get_class
+    from torchtree.distributions.distributions import Distribution
+
+    def make(vals, grad):
+        cls, params, xk = DISTS[spec["dist"]]
+        klass = get_class(cls)
+        leaves = {}
+
+        def leaf_param(name):
+            p = _param(name, vals[name], grad)
+            leaves[name] = p
+            return p
+
+        k = spec["k"]
+        xkind = spec["xkind"]
+        if xkind == "param":
+            xo = leaf_param("x")
+        elif xkind == "transformed":
+            xo = TransformedParameter("x.t", leaf_param("x"), torch.distributions.ExpTransform())
+        elif xkind == "view":
+            xo = ViewParameter("x.v", leaf_param("x"), slice(0, k))
+        else:
+            p = leaf_param("x")
+            # a list of parameters (CatParameter inside Distribution): two views that together are x
+            xo = [ViewParameter("x.a", p, slice(0, 1)), ViewParameter("x.b", p, slice(1, k))]
+        pdict, kw = {}, {}
+        for pn in params:
+            kd = spec["kinds"][pn]
+            nm = "p_" + pn
+            if kd == "number":
+                kw[pn] = float(spec["consts"][pn])
+            elif kd == "tensor0d":
+                lf = _Leaf(vals[nm], grad)
+                lf.tensor = torch.tensor(float(vals[nm][0]), dtype=PDT["t"], requires_grad=grad)
+                leaves[nm] = lf
+                kw[pn] = lf.tensor
+            elif kd == "tensor1":
+                lf = _Leaf(vals[nm], grad)
+                leaves[nm] = lf
+                kw[pn] = lf.tensor
+            elif kd == "param":
+                pdict[pn] = leaf_param(nm)
+            elif kd == "transformed":
+                pdict[pn] = TransformedParameter(nm + ".t", leaf_param(nm), torch.distributions.ExpTransform())
+            else:
+                pdict[pn] = ViewParameter(nm + ".v", leaf_param(nm), slice(0, 1))
+        m = Distribution("d", klass, xo, pdict, **kw)
+        return Built(m, {n: leaves[n] for n in spec["x"]}, None)
+
+    return Scen(spec, make)
+
+
 def gen_misc(rng, which):
     x, b = {}, {}
     k = rng.randint(2, 4)
@@ -1506,7 +1630,7 @@ def gen_eigh_degenerate(rng):
 
 
 # ----------------------------------------------------------------------------- dispatch
-_MAKERS = {"cli": make_cli, "bdmodel": make_bdmodel, "like": make_like, "coal": make_coal, "bdsk": make_bdsk, "bd": make_bd, "gmrf": make_gmrf,
+_MAKERS = {"distmix": make_distmix, "cli": make_cli, "bdmodel": make_bdmodel, "like": make_like, "coal": make_coal, "bdsk": make_bdsk, "bd": make_bd, "gmrf": make_gmrf,
            "gmrfcov": make_gmrfcov, "ctmc": make_ctmc, "cgd": make_cgd, "jac_tree": make_jac_tree,
            "jac_tp": make_jac_tp, "dist": make_dist, "misc": make_misc, "joint": make_joint}
 
@@ -1522,6 +1646,7 @@ def catalogue(rng, tier):
     thorough = tier == "thorough"
 
     # --- tree likelihood: substitution x site x tree x rescale
+    like_grid = []  # thorough: the full product runs LAST (it is the bulk; everything else must not wait for it)
     if thorough:
         for subst in SUBST_KINDS:
             for site in SITE_KINDS:
@@ -1529,7 +1654,11 @@ def catalogue(rng, tier):
                     for resc in (0, 1):
                         if subst in ("MG94", "LG", "WAG") and (site not in ("const", "weibull") or tk not in ("unrooted", "ratio")):
                             continue
-                        add(lambda s=subst, si=site, t=tk, r=resc: gen_like(rng, s, si, t, r))
+                        like_grid.append(lambda s=subst, si=site, t=tk, r=resc: gen_like(rng, s, si, t, r))
+        rng.shuffle(like_grid)
+        for th in like_grid[:120]:
+            add(th)
+        like_grid = like_grid[120:]
         for subst in ("JC69", "HKY", "GTR"):
             for tk in ("unrooted", "ratio"):
                 for resc in (0, 1):
@@ -1621,10 +1750,10 @@ def catalogue(rng, tier):
             else:
                 rng.shuffle(pairs)
                 if m == 2 and not with_r:
-                    chosen = [[]] + singles + pairs[:6]
+                    chosen = [[]] + singles + pairs[:2]
                 else:
                     rng.shuffle(singles)
-                    chosen = singles[:4] + pairs[:3]
+                    chosen = singles[:2] + pairs[:1]
             for z in chosen:
                 ep.append(lambda m=m, w=with_r, z=z: gen_bdsk_epochs(rng, m, z, rng.choice(["time", "ratio"]), w,
                                                                       rng.random() < 0.8))
@@ -1636,7 +1765,7 @@ def catalogue(rng, tier):
     ecells = [(m_, pt) for m_ in ("HKY", "HKY_sb", "GTR", "GTR_sb", "GenSym", "MG94") for pt in SUBST_POINTS]
     if not thorough:
         rng.shuffle(ecells)
-        ecells = ecells[:6]
+        ecells = ecells[:4]
     for m_, pt in cells + ecells:
         heavy = m_ == "MG94"
         sp.append(lambda m_=m_, pt=pt, heavy=heavy: gen_like(
@@ -1646,7 +1775,9 @@ def catalogue(rng, tier):
                                special="equal_theta+beyond_root"))
     # several independent points per special configuration: whether a masked factor is EXACTLY zero in
     # floating point (0 * inf in backward) depends on the rounding at the point
-    c.extend(sp * (4 if thorough else 2))
+    c.extend(sp)
+    n_bdsk_special = 10  # the r x rho BDSK cells come first in `sp`
+    dups = sp if thorough else sp[:n_bdsk_special]  # further independent draws: run LAST (first to go under load)
 
     # --- GMRF family
     for integ in (False, True):
@@ -1698,7 +1829,34 @@ def catalogue(rng, tier):
           lambda: gen_coal(rng, "constant", "time", False, n=2),
           lambda: gen_coal(rng, "skygrid", "fake", False, n=2),
           lambda: gen_bdsk(rng, "time", 1, False, True, False, False, n=3)]
-    c.extend(uv if thorough else rng.sample(uv, 8))
+    c.extend(uv if thorough else rng.sample(uv, 6))
+
+    # --- gradient w.r.t. EVERY leaf incl. the data-like ones, under every convention option: BDSK rate-shift times as
+    # a parameter (absolute / relative_times) x origin (absolute / root edge); grid points of the coalescents
+    tl = [(tk, m_, mode, re_, rh) for tk in ("time", "ratio") for m_ in (2, 3) for mode in ("abs", "rel")
+          for re_ in (False, True) for rh in (False, True)]
+    if not thorough:
+        rng.shuffle(tl)
+        tl = [c_ for c_ in tl if c_[2] == "rel"][:3] + [c_ for c_ in tl if c_[2] == "abs"][:2]
+    for tk, m_, mode, re_, rh in tl:
+        add(lambda tk=tk, m_=m_, mode=mode, re_=re_, rh=rh: gen_bdsk(rng, tk, m_, rh, True, re_, False, times_leaf=mode))
+    gl = [(k_, t_) for k_ in ("skygrid", "pwlinear", "skygrid_soft") for t_ in ("fake", "time", "ratio")]
+    for k_, t_ in (gl if thorough else rng.sample(gl, 4)):
+        add(lambda k_=k_, t_=t_: gen_coal(rng, k_, t_, rng.random() < 0.4, grid_leaf=True))
+
+    # --- distribution wrappers: every argument in every kind (number / 0-d / 1-element tensor / Parameter /
+    # TransformedParameter / ViewParameter), x as Parameter / Transformed / View / list
+    if thorough:
+        for dn in MIX_DISTS:
+            for pn in DISTS[dn][1]:
+                for kd in ARG_KINDS:
+                    add(lambda dn=dn, pn=pn, kd=kd: gen_distmix(rng, dn, {pn: kd}))
+    else:
+        for dn in MIX_DISTS:
+            pns = list(DISTS[dn][1])
+            add(lambda dn=dn, pns=pns: gen_distmix(rng, dn, {pns[0]: "number", pns[-1]: rng.choice(["tensor1", "tensor0d"])}))
+            add(lambda dn=dn, pns=pns: gen_distmix(rng, dn, {pns[0]: "number", pns[-1]: rng.choice(["param", "view", "transformed"])}))
+            add(lambda dn=dn: gen_distmix(rng, dn))
 
     # --- joint models
     jcfg = [(s, si, co, r) for s in ("JC69", "HKY_sb", "GTR_sb") for si in ("const", "weibull", "weibull_inv")
@@ -1708,4 +1866,6 @@ def catalogue(rng, tier):
         jcfg = jcfg[:3]
     for cfg in jcfg:
         add(lambda c=cfg: gen_joint(rng, c[0], c[1], c[2], c[3]))
+    c.extend(dups)
+    c.extend(like_grid)
     return c
